@@ -45,6 +45,7 @@ type checkCtx struct {
 	fns   map[string]bool // functions under contract
 	ext   map[string]bool // extern models / assumptions used
 	bounded []string
+	boundedOK []string
 }
 
 func (c *checkCtx) prog(module string) (*Prog, error) {
@@ -178,6 +179,31 @@ func cmdCheck(id, tier string, writeBaseline bool) int {
 			return 2
 		}
 		c.specs[pr.Path] = specs
+		// functions whose contract names this property: all their verification conditions
+		var fnames []string
+		for n, fs := range specs.Funcs {
+			if hasProp(fs.Props, id) {
+				fnames = append(fnames, n)
+			}
+		}
+		sort.Strings(fnames)
+		for _, n := range fnames {
+			fn := prog.Func(n)
+			if fn == nil {
+				all = append(all, OblResult{Name: n + "#contract:", Status: "unbound", Detail: "function not found", Func: n, Kind: "contract"})
+				continue
+			}
+			wg.Add(1)
+			go func(fn *ssa.Function) {
+				defer wg.Done()
+				sem <- struct{}{}
+				defer func() { <-sem }()
+				rs := VerifyFunc(prog, specs, fn, tier, c, nil)
+				mu.Lock()
+				all = append(all, rs...)
+				mu.Unlock()
+			}(fn)
+		}
 		for _, l := range specs.Lemmas {
 			if !hasProp(l.Props, id) {
 				continue
@@ -232,6 +258,19 @@ func cmdCheck(id, tier string, writeBaseline bool) int {
 
 	base := loadBaseline(id)
 	rematch(all, id, base)
+	// Obligations of the inventory that came back undecided (time-out under load) get a
+	// second, unhurried attempt before anything is reported.
+	if !writeBaseline {
+		for i := range all {
+			r := &all[i]
+			if base[r.Name] && r.Status == "unknown" && r.Query != "" {
+				rr := decide(r.Name, r.Query, 90, false)
+				if rr.Status == "proved" {
+					r.Status, r.Solver, r.Secs, r.Detail = "proved", rr.Solver+" (second attempt)", r.Secs+rr.Secs, ""
+				}
+			}
+		}
+	}
 	known := loadKnown()
 	isKnown := func(name string) *knownFinding {
 		for i := range known {
@@ -242,6 +281,7 @@ func cmdCheck(id, tier string, writeBaseline bool) int {
 		return nil
 	}
 	violations := 0
+	var boundedOK []string
 	notClaimed := 0
 	discharged := 0
 	var undecided, unsupportedL, knownHit []string
@@ -253,6 +293,10 @@ func cmdCheck(id, tier string, writeBaseline bool) int {
 		r := &all[i]
 		seen[r.Name] = true
 		solverSecs += r.Secs
+		if r.Status == "proved" && r.Kind == "bounded" {
+			boundedOK = append(boundedOK, r.Name)
+			continue
+		}
 		if r.Status == "proved" {
 			discharged++
 			perSolver[strings.Fields(r.Solver + " ?")[0]]++
@@ -312,6 +356,7 @@ func cmdCheck(id, tier string, writeBaseline bool) int {
 		fmt.Println("govc: no obligations generated (vacuous check)")
 		return 2
 	}
+	c.boundedOK = boundedOK
 	writeEvidence(c, id, tier, seed, all, discharged, violations, undecided, unsupportedL, knownHit, missing, solverSecs, perSolver, time.Since(start).Seconds())
 	fmt.Printf("%s %s: %d obligations, %d discharged, %d known findings, %d undecided (not claimed), %d outside subset, %d violations, %.1fs\n",
 		id, tier, len(all), discharged, len(knownHit), len(undecided), len(unsupportedL), violations, time.Since(start).Seconds())
@@ -385,7 +430,7 @@ func writeEvidence(c *checkCtx, id, tier string, seed int64, all []OblResult, di
 	}
 	claimed := 0
 	for _, r := range all {
-		if r.Status != "unsupported" && r.Status != "unbound" && r.Status != "skipped" {
+		if r.Status != "unsupported" && r.Status != "unbound" && r.Status != "skipped" && r.Kind != "bounded" {
 			claimed++
 		}
 	}
@@ -422,6 +467,7 @@ func writeEvidence(c *checkCtx, id, tier string, seed int64, all []OblResult, di
 		"known_findings":           knownHit,
 		"inventory_missing":        missing,
 		"bounded":                  append(append([]string{}, c.prop.Bounded...), c.bounded...),
+		"bounded_checks_passed":    c.boundedOK,
 		"all_obligations":          names,
 		"integer_mode":             "mathematical Int with exact Go wrap-around semantics (ite/mod) for every fixed-width operation",
 	}
